@@ -27,13 +27,14 @@ VARIABLES explicit,     \* sequence of key ids installed by SetSessionTicketKeys
           auto,         \* sequence of [id, created] managed by rotation, newest first
           nauto,        \* number of automatic keys generated so far (their ids are fresh: -1, -2, ...)
           now,          \* Config.Time in hours
-          tix           \* sequence of tickets produced so far (sealed or derived from a sealed one)
-tkVars == <<explicit, auto, nauto, now, tix>>
+          tix,          \* sequence of tickets produced so far (sealed or derived from a sealed one)
+          held          \* the states successful DecryptTicket calls have returned so far (the caller keeps them)
+tkVars == <<explicit, auto, nauto, now, tix, held>>
 
 Range(s) == {s[i] : i \in 1..Len(s)}
 NoState == <<>>
 
-TkInit == explicit = <<>> /\ auto = <<>> /\ nauto = 0 /\ now = 0 /\ tix = <<>>
+TkInit == explicit = <<>> /\ auto = <<>> /\ nauto = 0 /\ now = 0 /\ tix = <<>> /\ held = <<>>
 
 ---------------------------------------------------------------------------
 \* Config.ticketKeys: the key list a call sees, and its side effect on the automatic keys
@@ -56,41 +57,53 @@ BitIndex(t, b) == IF b >= FromEnd THEN 8 * t.len - 1 - (b - FromEnd) ELSE b
 \* Config.SetSessionTicketKeys(ks)
 SetKeys(ks) == /\ Len(ks) > 0
                /\ explicit' = ks
-               /\ UNCHANGED <<auto, nauto, now, tix>>
+               /\ UNCHANGED <<auto, nauto, now, tix, held>>
 
 \* the clock Config.Time advances by h hours
 Advance(h) == /\ h > 0
               /\ now' = now + h
-              /\ UNCHANGED <<explicit, auto, nauto, tix>>
+              /\ UNCHANGED <<explicit, auto, nauto, tix, held>>
 
-\* Config.EncryptTicket(state): a new ticket of n bytes sealed with the first key in use
-Encrypt(st, n) == /\ UseKeys
-                  /\ tix' = Append(tix, [key |-> KeysInUse[1], st |-> st, len |-> n, full |-> n, flips |-> {}, cut |-> FALSE])
-                  /\ UNCHANGED <<explicit, now>>
+\* Config.EncryptTicket(state): a new ticket of n bytes (raw) sealed with the first key in use
+Encrypt(st, n, raw) ==
+    /\ UseKeys
+    /\ tix' = Append(tix, [key |-> KeysInUse[1], st |-> st, len |-> n, full |-> n, flips |-> {}, cut |-> FALSE, sealed |-> TRUE, raw |-> raw])
+    /\ UNCHANGED <<explicit, now, held>>
 
 \* a copy of ticket src with bit b inverted (b is an index into the current bytes)
 Flip(src, b) == /\ src \in 1..Len(tix) /\ b >= 0 /\ b < 8 * tix[src].len
-                /\ tix' = Append(tix, [tix[src] EXCEPT !.flips = (@ \ {b}) \cup ({b} \ @)])
-                /\ UNCHANGED <<explicit, auto, nauto, now>>
+                /\ tix' = Append(tix, [tix[src] EXCEPT !.flips = (@ \ {b}) \cup ({b} \ @), !.sealed = FALSE])
+                /\ UNCHANGED <<explicit, auto, nauto, now, held>>
 
 \* a copy of ticket src cut to its first n bytes
 Truncate(src, n) == /\ src \in 1..Len(tix) /\ n >= 0 /\ n < tix[src].len
                     /\ tix' = Append(tix, [tix[src] EXCEPT !.len = n,
                                                            !.flips = {b \in @ : b < 8 * n},
-                                                           !.cut = (@ \/ n < tix[src].full)])
-                    /\ UNCHANGED <<explicit, auto, nauto, now>>
+                                                           !.cut = (@ \/ n < tix[src].full), !.sealed = FALSE])
+                    /\ UNCHANGED <<explicit, auto, nauto, now, held>>
 
 \* a copy of ticket src with n more bytes appended (only of a ticket none of whose own bytes were cut off:
 \* appended bytes could otherwise happen to restore the original)
 Extend(src, n) == /\ src \in 1..Len(tix) /\ n > 0 /\ ~tix[src].cut
-                  /\ tix' = Append(tix, [tix[src] EXCEPT !.len = @ + n])
-                  /\ UNCHANGED <<explicit, auto, nauto, now>>
+                  /\ tix' = Append(tix, [tix[src] EXCEPT !.len = @ + n, !.sealed = FALSE])
+                  /\ UNCHANGED <<explicit, auto, nauto, now, held>>
 
 \* Config.DecryptTicket(ticket src) returns r
 Decrypt(src, r) == /\ src \in 1..Len(tix)
                    /\ UseKeys
                    /\ r = Result(tix[src], KeysInUse)
+                   /\ held' = IF r.ok THEN Append(held, r.st) ELSE held
                    /\ UNCHANGED <<explicit, now, tix>>
+
+\* The values handed out belong to the caller: whatever the Config does afterwards (other tickets opened or sealed,
+\* keys changed), the d-th state DecryptTicket returned still is that state, and the bytes EncryptTicket returned
+\* for ticket src still are those bytes.
+Recheck(d, st) == /\ d \in 1..Len(held)
+                  /\ st = held[d]
+                  /\ UNCHANGED tkVars
+Reread(src, raw) == /\ src \in 1..Len(tix) /\ tix[src].sealed
+                    /\ raw = tix[src].raw
+                    /\ UNCHANGED tkVars
 
 \* opening ticket src with nothing but TicketKeyFromBytes(key bytes k): MAC check and decryption with the
 \* public AesKey / HmacKey fields must behave like a Config whose only key is k
